@@ -20,7 +20,7 @@ func (d *PathDecoder) attrValueCompletionAtPos(ctx context.Context, attr *hclsyn
 	candidates := lang.NewCandidates()
 	candidates.IsComplete = true
 
-	if exprRng := attr.Expr.Range(); pos.Byte < exprRng.Start.Byte && exprRng.Start.Byte <= exprRng.End.Byte && !isEmptyExpression(attr.Expr) {
+	if exprRng := attr.Expr.Range(); pos.Byte < exprRng.Start.Byte && !isEmptyExpression(attr.Expr) {
 		// The cursor is between '=' and an expression that starts further right:
 		// there is nothing to complete in front of the expression.
 		return candidates, nil
